@@ -10,6 +10,7 @@ import ReqVerif.Model.Filename
 import ReqVerif.Model.Metadata
 import ReqVerif.Model.ReqFile
 import ReqVerif.Model.Frontends
+import ReqVerif.Model.Repos
 /-!
 rvdriver: line protocol between the Python harness and the executable models.
 One JSON object per input line (`{"op": ..., ...}`), one JSON value per output line.
@@ -248,6 +249,27 @@ def opFrontends (j : Json) : Json :=
   Json.mkObj [("bazel", showLocs (FE.bazelScan ((jStrs j "lines").map String.toList))),
               ("cli", showLocs (FE.cliScan ((jStrs j "params").map String.toList) {}))]
 
+/-! ### repository stacking (C04) -/
+
+def opMulti (j : Json) : Json :=
+  -- members are numbered; answers[i] is "ok" / "nocand" / "raise"
+  let answers := jStrs j "answers"
+  let ask : Nat → Repos.Ans Nat := fun i => match answers[i]? with
+    | some "ok" => .ok i
+    | some "raise" => .raise "error"
+    | _ => .noCand
+  let args : Repos.Args Nat :=
+    { solutions := jNats j "solutions", sources := jNats j "sources", findLinks := jNats j "findLinks",
+      indexUrls := jNats j "indexUrls", defaultIdx := jNat j "defaultIdx", extraUrls := jNats j "extraUrls",
+      noIndex := jBool j "noIndex" }
+  match Repos.buildStack args with
+  | none => Json.mkObj [("error", "ValueError")]
+  | some st =>
+    let r := st.get ask
+    Json.mkObj [("order", jsonNats st.flatten),
+                ("answer", match r.1 with | .ok i => Json.num (JsonNumber.fromNat i) | .noCand => Json.str "nocand" | .raise _ => Json.str "raise"),
+                ("queried", jsonNats r.2)]
+
 def dispatch (op : String) (j : Json) : Json :=
   match op with
   | "merge" => opMerge j
@@ -261,6 +283,7 @@ def dispatch (op : String) (j : Json) : Json :=
   | "metadata" => opMetadata j
   | "reqfile" => opReqFile j
   | "frontends" => opFrontends j
+  | "multi" => opMulti j
   | "requires-python" => opRequiresPython j
   | "wheel-name" => opWheelName j
   | "compile" => opCompile j
